@@ -10,6 +10,7 @@ import (
 	"strings"
 	"testing"
 	"testing/synctest"
+	"time"
 )
 
 // BubbleOutcome is how a synctest bubble ended.
@@ -27,6 +28,7 @@ func (o BubbleOutcome) OK() bool { return o.Panic == "" && o.Deadlock == "" }
 // letting them abort the test binary. f must not call t.Fatal & co.
 func Bubble(t *testing.T, f func()) BubbleOutcome {
 	done := make(chan BubbleOutcome, 1)
+	idCh := make(chan string, 1)
 	go func() {
 		var out BubbleOutcome
 		defer func() {
@@ -43,10 +45,80 @@ func Bubble(t *testing.T, f func()) BubbleOutcome {
 					out.Panic = fmt.Sprintf("%v\n%s", r, debug.Stack())
 				}
 			}()
+			idCh <- ownBubble()
 			f()
 		})
 	}()
-	return <-done
+	// Wedge detection (wall clock, outside the bubble): a goroutine of the
+	// bubble blocked on a sync.Mutex (not a durable block) while no goroutine
+	// of the bubble is running or runnable can never be released - the bubble
+	// neither advances its clock nor reports a deadlock. Seen stable on two
+	// snapshots, that state is reported instead of hanging the test binary.
+	id := ""
+	stable := ""
+	tick := time.NewTicker(10 * time.Second)
+	defer tick.Stop()
+	for {
+		select {
+		case out := <-done:
+			return out
+		case id = <-idCh:
+		case <-tick.C:
+			if id == "" {
+				continue
+			}
+			desc, wedged := wedgeState(id)
+			if wedged && desc == stable {
+				return BubbleOutcome{Deadlock: "wedged: a goroutine waits for a mutex that no runnable goroutine can release (the bubble can neither advance nor deadlock)", Stacks: desc}
+			}
+			if wedged {
+				stable = desc
+			} else {
+				stable = ""
+			}
+		}
+	}
+}
+
+func ownBubble() string {
+	var buf [256]byte
+	n := runtime.Stack(buf[:], false)
+	if m := goroutineHdr.FindStringSubmatch(string(buf[:n])); m != nil {
+		if i := strings.Index(m[2], "synctest bubble "); i >= 0 {
+			return m[2][i:]
+		}
+	}
+	return ""
+}
+
+// wedgeState describes the goroutines of a bubble and reports whether none is
+// running/runnable while at least one is in a non-durable wait.
+func wedgeState(bubble string) (string, bool) {
+	buf := make([]byte, 4<<20)
+	n := runtime.Stack(buf, true)
+	var keep []string
+	nonDurable, active := 0, 0
+	for _, g := range strings.Split(string(buf[:n]), "\n\n") {
+		m := goroutineHdr.FindStringSubmatch(g)
+		if m == nil || !strings.HasSuffix(m[2], bubble) {
+			continue
+		}
+		state := m[2]
+		switch {
+		case strings.HasPrefix(state, "running"), strings.HasPrefix(state, "runnable"), strings.HasPrefix(state, "syscall"), strings.HasPrefix(state, "GC "):
+			if !strings.Contains(state, "durable") {
+				active++
+			}
+		case !strings.Contains(state, "(durable)"):
+			nonDurable++
+			lines := strings.Split(g, "\n")
+			if len(lines) > 12 {
+				lines = lines[:12]
+			}
+			keep = append(keep, strings.Join(lines, "\n"))
+		}
+	}
+	return strings.Join(keep, "\n\n"), active == 0 && nonDurable > 0
 }
 
 var goroutineHdr = regexp.MustCompile(`(?m)^goroutine (\d+) \[([^\]]*)\]:`)
